@@ -7,6 +7,7 @@
 #include <hgraph/lib/std/std_operators.h>
 #include <hgraph/lib/testing/runtime_support.h>
 #include <hgraph/runtime/lifecycle_observer.h>
+#include <hgraph/runtime/node_error.h>
 #include <hgraph/runtime/node_scheduler.h>
 #include <hgraph/runtime/runtime.h>
 #include <hgraph/types/graph_wiring.h>
@@ -50,10 +51,12 @@ namespace
         void flush()
         {
             auto sorted = [](std::vector<std::int64_t> v) { std::sort(v.begin(), v.end()); return v; };
-            if (starts) { out->line({20, cur_t, starts}); }
-            if (stops) { out->line({21, cur_t, stops}); }
+            // nested bodies start / stop inner children too: the counts are reported for flat bodies only
+            if (starts && body != 6) { out->line({20, cur_t, starts}); }
+            if (stops && body != 6) { out->line({21, cur_t, stops}); }
             if (!probe_starts.empty()) { Line l{22, cur_t}; for (auto k : sorted(probe_starts)) { l.push_back(k); } out->line(l); }
             if (!probe_stops.empty()) { Line l{23, cur_t}; for (auto k : sorted(probe_stops)) { l.push_back(k); } out->line(l); }
+            std::stable_sort(sink_lines.begin(), sink_lines.end(), [](const Line &a, const Line &b) { return a[0] < b[0]; });
             for (const Line &l : sink_lines) { out->line(l); }
             starts = stops = 0;
             probe_starts.clear(); probe_stops.clear(); sink_lines.clear();
@@ -205,6 +208,43 @@ namespace
         }
     };
 
+    // nested map: the body maps over the WHOLE second dictionary (passed through) with its own element as the
+    // inner broadcast argument, and sums the inner map's valid elements
+    struct SumDict
+    {
+        static constexpr auto name = "hgv_sumdict";
+        static void eval(In<"d", TSD<Int, TS<Int>>, InputValidity::Unchecked> d, Out<TS<Int>> out)
+        {
+            Int total = 0;
+            for (const auto &[k, v] : d.valid_items()) { (void)k; total += v.value(); }
+            out.set(total);
+        }
+    };
+    struct InnerAdd
+    {
+        static constexpr auto name = "hgv_inner_add";
+        static Port<TS<Int>>  compose(Wiring &w, Port<TS<Int>> y, Port<TS<Int>> x) { return wire<Add2>(w, y, x); }
+    };
+    template <int I> struct BodyNested
+    {
+        static constexpr auto name = "hgv_body_nested";
+        static Port<TS<Int>>  compose(Wiring &w, Port<TS<Int>> x, Port<TSD<Int, TS<Int>>> d)
+        {
+            auto inner = wire<stdlib::map_>(w, fn<InnerAdd>(), d, x).template as<TSD<Int, TS<Int>>>();
+            return wire<SumDict>(w, inner);
+        }
+    };
+    template <int I> struct BodyNestedK
+    {
+        static constexpr auto name = "hgv_body_nested_k";
+        static Port<TS<Int>>  compose(Wiring &w, NamedPort<"key", TS<Int>> key, Port<TS<Int>> x, Port<TSD<Int, TS<Int>>> d)
+        {
+            wire<KeyProbe>(w, key);
+            auto inner = wire<stdlib::map_>(w, fn<InnerAdd>(), d, wire<KeyMix>(w, key, x)).template as<TSD<Int, TS<Int>>>();
+            return wire<SumDict>(w, inner);
+        }
+    };
+
     // ------------------------------------------------------------------ sinks
     struct RecSink
     {
@@ -257,6 +297,22 @@ namespace
         }
     };
 
+    // captured child errors: keys whose error element ticked this cycle
+    struct ErrSink
+    {
+        static constexpr auto name = "hgv_errsink";
+        static void eval(DateTime now, In<"e", TSD<Int, TS<NodeError>>, InputValidity::Unchecked> e)
+        {
+            std::vector<std::int64_t> keys;
+            for (const auto &[k, v] : e.modified_items()) { (void)v; keys.push_back(k.template checked_as<Int>()); }
+            std::sort(keys.begin(), keys.end());
+            if (keys.empty()) { return; }
+            Line l{37, us(now)};
+            for (auto k : keys) { l.push_back(k); }
+            G->sink_lines.push_back(l);
+        }
+    };
+
     struct Obs : LifecycleObserver
     {
         void on_after_start_graph(const GraphView &g) override
@@ -300,6 +356,12 @@ namespace
             Wiring w;
             auto   d0 = wire<DictSrc>(w, Int{0});
             Port<TSD<Int, TS<Int>>> mapped = [&] {
+                if (ctx.body == 6)
+                {
+                    auto d1 = wire<DictSrc>(w, Int{1});
+                    return ctx.usekey ? wire<stdlib::map_>(w, fn<BodyNestedK<0>>(), d0, stdlib::pass_through(d1)).as<TSD<Int, TS<Int>>>()
+                                      : wire<stdlib::map_>(w, fn<BodyNested<0>>(), d0, stdlib::pass_through(d1)).as<TSD<Int, TS<Int>>>();
+                }
                 if (ctx.ndict == 2 || ctx.bcast)
                 {
                     if (ctx.ndict == 2)
@@ -316,6 +378,11 @@ namespace
                                   : wire<stdlib::map_>(w, fn<Body1<0>>(), d0).as<TSD<Int, TS<Int>>>();
             }();
             wire<RecSink>(w, mapped);
+            if (ctx.capture)
+            {
+                Port<TSD<Int, TS<NodeError>>> errors = exception_time_series(mapped);
+                wire<ErrSink>(w, errors);
+            }
             GraphBuilder gb = std::move(w).finish();
 
             Obs                  obs;
@@ -336,7 +403,7 @@ namespace
             if (!failed)
             {
                 ctx.flush();
-                out.line({24, ctx.final_stops});
+                if (ctx.body != 6) { out.line({24, ctx.final_stops}); }
                 if (ctx.usekey)
                 {
                     Line l{25};
